@@ -1,19 +1,127 @@
-(* C04 — responses respect the transport size limit and truncate correctly (work in progress). *)
-From QV Require Import Base.Res Base.Octets Spec.MsgWriterS Spec.RespS.
-From QV Require Model.QueryW Model.Server Spec.NameRepr.
+(* C04 — responses respect the transport size limit and truncate correctly.
+   Statements only (proofs are [exact <lemma>] or a few lines of unpacking).
 
-(* what a verdict PairOk of the oracle means for a truncated UDP response *)
+   What is proved, for ALL zones, questions, buffers and sizes, about the OCTET-LEVEL model
+   (Model/QueryW.v: the query model of C05 driving the Writer model of C12, prepared as
+   Server::handle_message prepares the response of a clean QUERY):
+     c04_response_within_limit   |response| <= limit in effect (TCP 65535; UDP 512 without OPT; UDP with
+                                 OPT: the negotiated limit handed over by the server model)
+     c04_tc_shape                the TC bit is set only in the Truncation arm, only over UDP, after
+                                 clear_rrs: no answer/authority record and only the reserved pseudo-records
+                                 counted; over TCP TC stays clear; the limit never changes while answering
+     c04_server_limit_steps_partial   the two places of the server model that fix the limit: the initial
+                                 limit (512 / 65535, capped by the buffer) and set_limit at the OPT
+                                 (PARTIAL: that no other step of the pre-scan touches the limit is part of
+                                 the srv correspondence, not of a theorem)
+   What is NOT proved and is decided per case by the extracted oracle [pair_check] (Spec/RespS.v) on
+   the real server's two responses to every generated request: clauses (iii) "whenever the TCP
+   response fits in the UDP limit the UDP response is identical" and (iv) "otherwise a TC-clear UDP
+   response differs only by omitted optional additional records, never by in-bailiwick glue"
+   (they need a limit-monotonicity theorem of the Writer, which C12 does not have), and the size/TC
+   clauses on the finished octets.  c04_oracle_* say what a verdict PairOk means. *)
+From QV Require Import Base.Res Base.Octets Model.MsgWriter Model.ZoneTree Model.Query Model.QueryW
+  Proofs.MsgWriterInvP Proofs.QueryWP Spec.MsgWriterS Spec.RespS.
+From QV Require Model.Server Spec.NameRepr.
+
+Theorem c04_response_within_limit : forall negttl buf tcp id rd qname qtype qclass edns limit z len b,
+  respond_w negttl buf tcp id rd qname qtype qclass edns limit z = Some (len, b) ->
+  (tcp = true -> len <= N.to_nat 65535) /\
+  (tcp = false -> edns = None -> len <= N.to_nat 512) /\
+  (tcp = false -> edns <> None -> N.to_nat 512 <= limit -> len <= limit).
+Proof. exact respond_w_limit. Qed.
+
+Theorem c04_tc_shape : forall negttl buf tcp id rd qname qtype qclass edns limit z w w',
+  prepare_w buf tcp id rd qname qtype qclass edns limit = Some w ->
+  handle_non_axfr_query w_iface negttl z qname qtype tcp w = Some w' ->
+  w_limit w' = w_limit w /\
+  (tcp = true -> tc_clear w') /\
+  (tc_clear w' \/ (tcp = false /\ tc_set w' /\ no_records w')).
+Proof.
+  intros negttl buf tcp id rd qname qtype qclass edns limit z w w' Hp Hh.
+  destruct (prepare_PW _ _ _ _ _ _ _ _ _ _ Hp) as (L & HP & _).
+  destruct (handle_PW L _ _ _ _ _ _ _ HP Hh) as (_ & Hl & A & B).
+  destruct HP as (_ & Hl0 & _). split; [congruence|]. auto.
+Qed.
+
+Theorem c04_server_limit_steps_partial :
+  (forall cfg id opc rd w, Server.initial_resp cfg id opc rd = Ok w ->
+     Server.w_limit w = Nat.min (match Server.c_transport cfg with Server.Tcp => Server.tcp_limit | Server.Udp => Server.udp_limit end)
+                                (Server.c_buflen cfg)) /\
+  (forall w n w', Server.set_limit w n = Ok w' -> Server.w_limit w <= n ->
+     Server.w_limit w' = Nat.min n (Server.w_buflen w)).
+Proof.
+  split.
+  - intros cfg id opc rd w. unfold Server.initial_resp. destruct (_ <? _); [discriminate|].
+    intros H; inversion H; subst. reflexivity.
+  - intros w n w'. unfold Server.set_limit. destruct (Server.w_limit w <=? n) eqn:E.
+    + destruct (_ <? _); [discriminate|]. intros H _; inversion H; subst. reflexivity.
+    + apply Nat.leb_gt in E. intros _ H. lia.
+Qed.
+
+(* what the oracle's verdict means *)
+Lemma label_eqb_eq : forall a b, label_eqb a b = true -> a = b.
+Proof.
+  induction a as [|x a IH]; destruct b as [|y b]; simpl; try discriminate; auto.
+  intros H. apply andb_true_iff in H. destruct H as [H1 H2]. apply N.eqb_eq in H1. f_equal; auto.
+Qed.
+
 Theorem c04_oracle_tc_shape : forall their server u t mu mt,
   decode_msg u = Some mu -> decode_msg t = Some mt ->
   pair_check their server u t = PairOk -> tc_bit mu = true ->
   m_an mu = [] /\ m_ns mu = [] /\ forallb is_pseudo (m_ar mu) = true /\ tc_bit mt = false.
 Proof.
   intros their server u t mu mt Hu Ht. unfold pair_check. rewrite Hu, Ht.
-  destruct (_ || _); [discriminate|]. destruct (tc_bit mt); [discriminate|].
-  intros H Htc. rewrite Htc in H.
+  destruct (_ || _); [discriminate|]. destruct (tc_bit mt) eqn:Tt; [discriminate|].
+  intros H Htc. destruct (length t <=? udp_limit_of mu their server) eqn:F.
+  { destruct (label_eqb u t) eqn:E; [|discriminate]. apply label_eqb_eq in E. subst t.
+    rewrite Hu in Ht. inversion Ht; subst. rewrite Htc in *. discriminate. }
+  rewrite Htc in H.
   destruct (length (m_an mu) =? 0) eqn:A; [|discriminate]. destruct (length (m_ns mu) =? 0) eqn:B; [|discriminate].
   destruct (forallb is_pseudo (m_ar mu)) eqn:C; [|discriminate].
   apply Nat.eqb_eq in A. apply Nat.eqb_eq in B.
   destruct (m_an mu); [|discriminate]. destruct (m_ns mu); [|discriminate]. auto.
 Qed.
+
+Theorem c04_oracle_sizes_and_identity : forall their server u t mu mt,
+  decode_msg u = Some mu -> decode_msg t = Some mt ->
+  pair_check their server u t = PairOk ->
+  length u <= udp_limit_of mu their server /\ length t <= N.to_nat 65535 /\ tc_bit mt = false /\
+  (length t <= udp_limit_of mu their server -> u = t).
+Proof.
+  intros their server u t mu mt Hu Ht. unfold pair_check. rewrite Hu, Ht.
+  destruct (udp_limit_of mu their server <? length u) eqn:A; [discriminate|].
+  destruct (N.to_nat 65535 <? length t) eqn:B; [discriminate|]. cbn [orb].
+  apply Nat.ltb_ge in A. apply Nat.ltb_ge in B.
+  destruct (tc_bit mt); [discriminate|]. intros H. repeat split; auto.
+  intros Hfit. apply Nat.leb_le in Hfit. rewrite Hfit in H.
+  destruct (label_eqb u t) eqn:E; [|discriminate]. apply label_eqb_eq. exact E.
+Qed.
+
+(* Non-vacuity: zone "a." with a TXT RRset of 3 x 201 octets at b.a.; the question b.a. TXT without EDNS.
+   Over TCP the model writes the complete 660-octet response (3 answers); over UDP (limit 512) the second
+   record does not fit: 21 octets, TC set (flags octet 0x86), no records.  The oracle accepts the pair and
+   both responses are well formed. *)
+Example c04_example :
+  let a := [97%N] in let big := [98%N] in
+  let soa := [0; 0; 0;0;0;1; 0;0;0;2; 0;0;0;3; 0;0;0;4; 0;0;0;60]%N in
+  let txt := fun c : N => (200 :: repeat c 200)%N in
+  let recs := [mk_record [a] 6 1 3600 soa; mk_record [big; a] 16 1 300 (txt 120%N);
+               mk_record [big; a] 16 1 300 (txt 121%N); mk_record [big; a] 16 1 300 (txt 122%N)] in
+  exists z ru rt lu lt,
+    zone_build req_simple (zone_new [a] 1 false) recs = Some z /\
+    respond_w neg_ttl (repeat 0%N 1000) false 7 false [big; a] 16 1 None 512 z = Some (lu, ru) /\
+    respond_w neg_ttl (repeat 0%N 1000) true 7 false [big; a] 16 1 None 512 z = Some (lt, rt) /\
+    lu = 21 /\ lt = 660 /\ nth_error ru 2 = Some 134%N /\ nth_error rt 2 = Some 132%N /\
+    pair_check 0 1232 (firstn lu ru) (firstn lt rt) = PairOk /\
+    wf_response (firstn lu ru) = true /\ wf_response (firstn lt rt) = true.
+Proof.
+  cbv zeta. eexists. eexists. eexists. eexists. eexists.
+  split; [vm_compute; reflexivity|]. split; [vm_compute; reflexivity|]. split; [vm_compute; reflexivity|].
+  vm_compute. repeat split.
+Qed.
+
+Print Assumptions c04_response_within_limit.
+Print Assumptions c04_tc_shape.
+Print Assumptions c04_server_limit_steps_partial.
 Print Assumptions c04_oracle_tc_shape.
+Print Assumptions c04_oracle_sizes_and_identity.
